@@ -122,7 +122,12 @@ pub fn foreign_record(sel: u64, arg: u64, stats: &mut WireStats, tablet: bool) -
     0 => { stats.foreign_syn += 1; kernel_record(1623709383, 272708, EV_SYN, 0, 0) }
     1 => { stats.foreign_msc += 1; kernel_record(1623709383, 272708, EV_MSC, 4, (arg & 0xff) as i32) }
     2 => { stats.foreign_autorepeat += 1; kernel_record(1623709383, 272708, EV_KEY, known[(arg % 6) as usize], 2) }
-    3 => { stats.foreign_unknown_code += 1; kernel_record(7, 7, EV_KEY, [84u16, 195, 196, 197, 198, 199][(arg % 6) as usize], (arg / 8 % 2) as i32) }
+    3 => { stats.foreign_unknown_code += 1;
+      // codes the enum does not know, the extremes of the 16-bit range among them
+      let cands = [84u16, 195, 196, 197, 198, 199, 0xffff, 0x7fff, 0x8000, 0xfffe, 701, 767, 768, 0x300, 0x2e8, 0x1000];
+      let mut code = cands[(arg % 16) as usize];
+      if <KeyCode as FromPrimitive>::from_u16(code).is_some() { code = 84; }
+      kernel_record(7, 7, EV_KEY, code, (arg / 16 % 2) as i32) }
     4 => { stats.foreign_big_code += 1; kernel_record(7, 7, EV_KEY, 0x2ff - (arg % 3) as u16, (arg / 8 % 2) as i32) }
     5 => { stats.foreign_other_type += 1; kernel_record(7, 7, EV_LED, (arg % 3) as u16, (arg / 4 % 2) as i32) }
     6 => { stats.foreign_other_type += 1; kernel_record(7, 7, EV_REL, (arg % 2) as u16, (arg % 7) as i32 - 3) }
@@ -252,13 +257,16 @@ pub struct CaseC {
   /// is full: EAGAIN) and the queue is drained afterwards, kind 1 = it is written normally. Either
   /// way the bytes of `batch` must be exactly `batch`'s ("for every batch of output events").
   pub before: Option<(u8, Vec<Event>)>,
+  /// the case runs on a newly started thread: whatever the code under test keeps per thread
+  /// (caches, lazily initialised tables) is cold, as it is when the program has just started
+  pub fresh_thread: bool,
 }
 #[derive(Clone, Debug, PartialEq)]
 pub enum Rec { Key(Event), Foreign(u64, u64) }
 
 impl CaseC {
   pub fn json(&self) -> Value {
-    json!({"world": "C", "batch": evs_json(&self.batch), "loopback": self.loopback, "before": self.before.as_ref().map(|(k, b)| json!([k, evs_json(b)])),
+    json!({"world": "C", "fresh_thread": self.fresh_thread, "batch": evs_json(&self.batch), "loopback": self.loopback, "before": self.before.as_ref().map(|(k, b)| json!([k, evs_json(b)])),
       "bursts": self.bursts.iter().map(|b| b.iter().map(|r| match r { Rec::Key(e) => json!(ev_str(e)), Rec::Foreign(s, a) => json!(["f", s, a]) }).collect::<Vec<_>>()).collect::<Vec<_>>()})
   }
   pub fn from_json(v: &Value) -> Result<CaseC, String> {
@@ -277,14 +285,14 @@ impl CaseC {
       Some(a) if a.len() == 2 => { let mut b = vec![]; for e in a[1].as_array().cloned().unwrap_or_default() { b.push(ev_from(e.as_str().ok_or("bad event")?)?); } Some((a[0].as_u64().unwrap_or(0) as u8, b)) }
       _ => None,
     };
-    Ok(CaseC { batch, bursts, loopback: v.get("loopback").and_then(|x| x.as_bool()).unwrap_or(true), before })
+    Ok(CaseC { batch, bursts, loopback: v.get("loopback").and_then(|x| x.as_bool()).unwrap_or(true), before, fresh_thread: v.get("fresh_thread").and_then(|x| x.as_bool()).unwrap_or(false) })
   }
   pub fn hash(&self) -> u64 {
     let mut h = H::new();
     for e in &self.batch { hash_ev(&mut h, e); }
     h.u(0xCC);
     for b in &self.bursts { h.u(0xCD); for r in b { match r { Rec::Key(e) => hash_ev(&mut h, e), Rec::Foreign(s, a) => { h.u(0x5000 + s); h.u(*a); } } } }
-    h.u(self.loopback as u64);
+    h.u(self.loopback as u64); if self.fresh_thread { h.u(0xf4e5); }
     if let Some((k, b)) = &self.before { h.u(0xCE + *k as u64); for e in b { hash_ev(&mut h, e); } }
     h.fin()
   }
@@ -363,14 +371,14 @@ impl WireCampaign {
       let len = (idx % (MAX_SWEPT_LEN + 1)) as usize;
       let mut batch = vec![];
       for _ in 0..len { let k = rng.pick(&self.keys); batch.push(if rng.chance(1, 2) { Pressed(k) } else { Released(k) }); }
-      return CaseC { batch, bursts: vec![], loopback: true, before: None };
+      return CaseC { batch, bursts: vec![], loopback: true, before: None, fresh_thread: false };
     }
     if self.exhaustive_codes {
       // run idx covers key idx: press and release alone and inside a batch
       let k = self.keys[(idx as usize) % self.keys.len()];
       let other = self.keys[rng.below(self.keys.len())];
       let batch = match idx as usize / self.keys.len() { 0 => vec![Pressed(k)], 1 => vec![Released(k)], _ => vec![Pressed(other), Pressed(k), Released(k), Released(other)] };
-      return CaseC { batch: batch.clone(), bursts: vec![vec![Rec::Foreign(1, 30), Rec::Key(Pressed(k)), Rec::Foreign(0, 0), Rec::Foreign(2, 0), Rec::Key(Released(k)), Rec::Foreign(0, 0)]], loopback: true, before: None };
+      return CaseC { batch: batch.clone(), bursts: vec![vec![Rec::Foreign(1, 30), Rec::Key(Pressed(k)), Rec::Foreign(0, 0), Rec::Foreign(2, 0), Rec::Key(Released(k)), Rec::Foreign(0, 0)]], loopback: true, before: None, fresh_thread: false };
     }
     let len = match rng.below(10) { 0 => 0, 1 => 1, 2..=6 => rng.range(2, 8), _ => rng.range(9, if thorough { 200 } else { 64 }) };
     let mut batch = vec![];
@@ -403,12 +411,22 @@ impl WireCampaign {
       for _ in 0..rng.range(1, 6) { let k = rng.pick(&self.keys); b.push(if rng.chance(1, 2) { Pressed(k) } else { Released(k) }); }
       Some((rng.below(2) as u8, b))
     } else { None };
-    CaseC { batch, bursts, loopback, before }
+    // one case in 100 runs on a newly started thread and then mostly begins with what a cold reader must
+    // not stumble over: a record with an unknown code before any known key was ever decoded
+    let fresh_thread = rng.chance(1, 100);
+    let mut bursts = bursts; let mut loopback = loopback;
+    if fresh_thread && rng.chance(2, 3) { loopback = false; let first = vec![Rec::Foreign(3, rng.below(1 << 16) as u64), Rec::Key(if rng.chance(1, 2) { Pressed(rng.pick(&self.keys)) } else { Released(rng.pick(&self.keys)) })]; bursts.insert(0, first); }
+    CaseC { batch, bursts, loopback, before, fresh_thread }
   }
 }
 
 fn run_c(case: &CaseC, stats: &mut WireStats, digest: &mut u64) -> Result<Option<Violation>, String> {
   let c = case.clone();
+  if case.fresh_thread {
+    let (r, st, d) = std::thread::scope(|s| s.spawn(|| { let mut st = WireStats::default(); let mut d = 0u64; let r = catch_unwind(AssertUnwindSafe(|| execute_c(&c, &mut st, &mut d))).map_err(|e| panic_msg(&e)); (r, st, d) }).join()).map_err(|_| "the fresh thread died".to_string())?;
+    *stats = st; *digest = d;
+    return r;
+  }
   catch_unwind(AssertUnwindSafe(|| execute_c(&c, stats, digest))).map_err(|e| panic_msg(&e))
 }
 
